@@ -229,7 +229,10 @@ def part_a_chunk(args):
 
 
 # ----------------------------------------------------------------------------- part B
-def program_for(p):
+def program_for(p, via_variable=False):
+    if via_variable:
+        # the same pattern taken from a flow variable (the evaluator wraps containers from variables)
+        return f"flow main\n  $pat = {to_colang(p)}\n  match E(p=$pat)\n  send Marker()\n  match Never()\n"
     return f"flow main\n  match E(p={to_colang(p)})\n  send Marker()\n  match Never()\n"
 
 
@@ -277,9 +280,10 @@ def derived(p):
 
 
 def part_b_task(args):
-    p, vals = args
+    p, vals = args[0], args[1]
+    via_variable = len(args) > 2 and args[2]
     res = {"programs": 1, "steps": 0, "markers": 0, "violations": [], "derived": 0}
-    src = program_for(p)
+    src = program_for(p, via_variable)
     try:
         base = v2x.init_state(src)
     except Exception as e:
@@ -310,7 +314,7 @@ def part_b_task(args):
         if got != exp:
             if len(res["violations"]) < 20:
                 res["violations"].append(
-                    (classify(p, v) if evname == "E" else "wrong-event-name-matched",
+                    ((classify(p, v) + (":pattern-from-variable" if via_variable else "")) if evname == "E" else "wrong-event-name-matched",
                      f"`match E(p={to_colang(p)})` on {evname}(p={to_colang(v)}{', q=.., r=..' if extra else ''}): expected "
                      f"{'advance' if exp else 'no advance'}, " + (f"raised {err}" if err else f"advanced={got}"),
                      {"engine": "C04-B", "source": src, "event": {"type": evname, "p": v, "extra": extra}}))
@@ -335,6 +339,41 @@ REF_PROGRAMS = {
         0,
     ),
 }
+
+
+ACTION_PROGRESS = {
+    "ref-finished-after-update": "flow main\n  start CountAction(count=3) as $a\n  match $a.Finished()\n  send Marker()\n  match Never()\n",
+    "ctor-finished-after-update": "flow main\n  start CountAction(count=3)\n  match CountAction(count=3).Finished()\n  send Marker()\n  match Never()\n",
+    "ctor-other-args-no-match": "flow main\n  start CountAction(count=3)\n  match CountAction(count=4).Finished()\n  send Marker()\n  match Never()\n",
+}
+
+
+def part_progress(_):
+    """Started / Updated events of the same instance may carry parameters named like the start
+    parameters; the statement's parameters of `X(args).Finished()` refer to the *start* arguments."""
+    res = {"progress_cases": 0, "violations": []}
+    for name, src in ACTION_PROGRESS.items():
+        for pre in ([], [("Started", {"count": 3})], [("Started", {"count": 2})], [("Updated", {"count": 2})],
+                    [("Started", {}), ("Updated", {"count": 1}), ("Updated", {"count": 0})]):
+            st = v2x.init_state(src)
+            v2x.step(st, v2x.resolve_event(st, ("start_main",)), [], v2x.UIDS.n)
+            pend = v2x.pending_actions(st)
+            if len(pend) != 1:
+                res["violations"].append((f"harness:action-progress:{name}", f"{len(pend)} pending actions", {"engine": "C04-ref", "source": src}))
+                continue
+            uid = pend[0].uid
+            for kind, args in pre:
+                v2x.step(st, dict({"type": f"CountAction{kind}", "action_uid": uid}, **args), [], v2x.UIDS.n)
+            ev = {"type": "CountActionFinished", "action_uid": uid, "is_success": True}
+            v2x.step(st, ev, [], v2x.UIDS.n)
+            got = any(e["type"] == "Marker" for e in st.outgoing_events)
+            exp = name != "ctor-other-args-no-match"
+            res["progress_cases"] += 1
+            if got != exp:
+                res["violations"].append((f"action-event-after-progress-events:{name}",
+                                          f"{name}: progress events {pre} then Finished of the same instance: expected advance={exp}, got {got}",
+                                          {"engine": "C04-ref", "source": src, "event": ev, "pre": pre}))
+    return res
 
 
 def part_ref(_):
@@ -425,13 +464,20 @@ def run(rep, tier):
     pats_b = patterns(1) if tier == "quick" else patterns(2)
     vals_b = values(1)
     steps = markers = progs = der = 0
-    for r in par.pmap(part_b_task, [(p, vals_b if size(p) <= 3 else []) for p in pats_b], chunksize=4):
+    tasks_b = [(p, vals_b if size(p) <= 3 else []) for p in pats_b]
+    # the same depth<=1 patterns supplied through a flow variable (regex leaves cannot be stored in a set literal variable any differently)
+    tasks_b += [(p, vals_b if size(p) <= 3 else [], True) for p in patterns(1)]
+    for r in par.pmap(part_b_task, tasks_b, chunksize=4):
         steps += r["steps"]; markers += r["markers"]; progs += r["programs"]; der += r["derived"]
         for sig, what, rp in r["violations"]:
             rep.violation(sig, what, rp)
     rr = part_ref(None)
     for sig, what, rp in rr["violations"]:
         rep.violation(sig, what, rp)
+    pr = part_progress(None)
+    for sig, what, rp in pr["violations"]:
+        rep.violation(sig, what, rp)
+    rep.set("action_progress_cases", pr["progress_cases"])
     rep.set("interpreter_level_programs", progs)
     rep.set("interpreter_level_steps", steps)
     rep.set("interpreter_level_steps_expected_to_advance", markers)
